@@ -12,7 +12,7 @@ Centres == {1, 3, 5, 10, 20, 40, 93, 100, 310, 276, 294, 297, 300, 424, 437, 448
 LocalW == UNION {Ticks(c - 1, c + 1) : c \in Centres}
 LocalQueries == {[zone |-> z, kind |-> "local", at |-> t] : z \in ToyZones, t \in LocalW}
 \* one query per (zone, year): rule laws over every tick of that year
-RuleYears == {1971, 1972, 2100, 9999}
+RuleYears == {1972, 2100}
 RuleZones == {z \in ToyZones : ToyDisk[z].footer.kind = "rule"}
 YearQueries == {[zone |-> z, kind |-> "offset", at |-> P(DaysFromCivil(y, 1, 1), 0)] : z \in ToyZones, y \in RuleYears}
 =============================================================================
